@@ -39,6 +39,12 @@ FACTS = [
     ("claimsHeaderName", CONST, r'pub const CLAIMS_HEADER\s*:\s*&str\s*=\s*"([^"]*)"\s*;', "str", "x-ms-azure-host-claims", E2E),
     ("authorizationHeaderName", CONST, r'pub const AUTHORIZATION_HEADER\s*:\s*&str\s*=\s*"([^"]*)"\s*;', "str", "x-ms-azure-host-authorization", E2E),
     ("dateHeaderName", CONST, r'pub const DATE_HEADER\s*:\s*&str\s*=\s*"([^"]*)"\s*;', "str", "x-ms-azure-host-date", E2E),
+    ("telemetryMaxMessageSize", "proxy_agent/src/telemetry/event_reader.rs",
+     r"const MAX_MESSAGE_SIZE\s*:\s*usize\s*=\s*([0-9_ *]+);", "prod", 65536, ["C18"]),
+    ("eventMaxMessageLength", "proxy_agent_shared/src/telemetry/event_logger.rs",
+     r"pub const MAX_MESSAGE_LENGTH\s*:\s*usize\s*=\s*([0-9_ *]+);", "prod", 4096, ["C13", "C18"]),
+    ("statusMaxMessageLength", "proxy_agent/src/shared_state/agent_status_wrapper.rs",
+     r"const MAX_STATUS_MESSAGE_LENGTH\s*:\s*usize\s*=\s*([0-9_ *]+);", "prod", 1024, ["C13"]),
     # body limits (proxy_server.rs): LOW = 1024 * 100 ; LARGE = 1024 * LOW
     ("requestBodyLowLimit", "proxy_agent/src/proxy/proxy_server.rs",
      r"const REQUEST_BODY_LOW_LIMIT_SIZE\s*:\s*usize\s*=\s*([0-9_ *]+);", "prod", 102400, ["C15", "C14", "C01"]),
